@@ -45,16 +45,19 @@ type Layout struct {
 	Resolver string // "single-file" | "follow-schema" | "none"
 	Worker   int    // exec.worker_limit: 0 | 2
 	Models   string // "generated" | "autobind"
+	ModelPkg string // where modelgen writes: "separate" (graph/model, package model) | "same" (graph/models_gen.go, the exec package)
 }
 
 func (l Layout) String() string {
-	return fmt.Sprintf("exec=%s,resolver=%s,worker_limit=%d,models=%s", l.Exec, l.Resolver, l.Worker, l.Models)
+	return fmt.Sprintf("exec=%s,resolver=%s,worker_limit=%d,models=%s,modelpkg=%s", l.Exec, l.Resolver, l.Worker, l.Models, l.ModelPkg)
 }
 
 // baseline layout used by failure minimisation.
-var baseLayout = Layout{"single-file", "none", 0, "generated"}
+var baseLayout = Layout{"single-file", "none", 0, "generated", "separate"}
 
-// ResetDim resets dimension i (0 models, 1 worker_limit, 2 resolver layout, 3 exec layout) to
+const layoutDims = 5
+
+// ResetDim resets dimension i (0 models, 1 worker_limit, 2 resolver layout, 3 exec layout, 4 model package) to
 // the baseline; ok is false when it already has the baseline value.
 func (l Layout) ResetDim(i int) (Layout, bool) {
 	t := l
@@ -67,6 +70,8 @@ func (l Layout) ResetDim(i int) (Layout, bool) {
 		t.Resolver = baseLayout.Resolver
 	case 3:
 		t.Exec = baseLayout.Exec
+	case 4:
+		t.ModelPkg = baseLayout.ModelPkg
 	}
 	return t, t != l
 }
@@ -86,6 +91,9 @@ func (l Layout) NonBaseline() string {
 	if l.Models != baseLayout.Models {
 		p = append(p, "models="+l.Models)
 	}
+	if l.ModelPkg != baseLayout.ModelPkg {
+		p = append(p, "modelpkg="+l.ModelPkg)
+	}
 	if len(p) == 0 {
 		return "baseline-layout"
 	}
@@ -98,7 +106,9 @@ func allLayouts() []Layout {
 		for _, r := range []string{"single-file", "follow-schema", "none"} {
 			for _, w := range []int{0, 2} {
 				for _, m := range []string{"generated", "autobind"} {
-					out = append(out, Layout{e, r, w, m})
+					for _, p := range []string{"separate", "same"} {
+						out = append(out, Layout{e, r, w, m, p})
+					}
 				}
 			}
 		}
@@ -160,7 +170,8 @@ func deviant(key string) string {
 	panic("unknown option " + key)
 }
 
-// YAML renders gqlgen.yml. Paths: schema/*.graphqls, exec in graph/, models in graph/model,
+// YAML renders gqlgen.yml. Paths: schema/*.graphqls, exec in graph/, models in graph/model (or in
+// graph/ itself: the documented one-package layout gqlgen's own test servers use),
 // hand-written models (autobind) in probe/hand, resolvers in graph/ (follow-schema, same package
 // as exec — the gqlgen init default) or resolvers/ (single-file, separate package).
 func (c Config) YAML() string {
@@ -175,7 +186,11 @@ func (c Config) YAML() string {
 	if c.Layout.Worker != 0 {
 		fmt.Fprintf(&b, "  worker_limit: %d\n", c.Layout.Worker)
 	}
-	b.WriteString("model:\n  filename: graph/model/models_gen.go\n  package: model\n")
+	if c.Layout.ModelPkg == "same" {
+		b.WriteString("model:\n  filename: graph/models_gen.go\n  package: graph\n")
+	} else {
+		b.WriteString("model:\n  filename: graph/model/models_gen.go\n  package: model\n")
+	}
 	has := map[string]bool{}
 	for _, d := range c.Dev {
 		has[d] = true
